@@ -427,6 +427,63 @@ def _dependent(op):
     return False
 
 
+def fold_config(nf, idx, ops, raised):
+    """
+    N(H) with the config assignments before the last committed parse folded
+    into the constructor.  None when there is nothing to fold (no later
+    committed parse, or no assignment before it).
+    """
+    last_j = None
+    for j, k in enumerate(idx):
+        if k and nf[j]["op"] == "parse" and nf[j].get("commit") \
+                and not raised[k]:
+            last_j = j
+    if last_j is None:
+        return None
+    texts, keep = [], []
+    for j in range(1, last_j):
+        if nf[j]["op"] == "set_config" and idx[j] is not None \
+                and not raised[idx[j]]:
+            texts.append(nf[j]["config"])
+        else:
+            keep.append(nf[j])
+    if not texts:
+        return None
+    if any(nf[j]["op"] != "set_config" for j in range(1, last_j)):
+        return None      # something else sits between: keep it simple
+    create = copy.deepcopy(nf[0])
+    parts = [t for t in [create.get("config")] + texts if t]
+    create["config"] = ",".join(parts) if parts else None
+    # An init keyword beats the config string of the same init, but a LATER
+    # assignment beats the init keyword; so a keyword whose setting is
+    # mentioned by a folded assignment no longer applies.
+    mentioned = set()
+    for t in texts:
+        mentioned |= _names_in(t)
+    for kw_name in ("parse_qq", "layout"):
+        if kw_name in mentioned:
+            create["kw"].pop(kw_name, None)
+    return [create] + keep + nf[last_j:]
+
+
+def _names_in(config_text):
+    """Setting names a config text mentions (my own reading of the syntax)."""
+    import re
+    names = set()
+    for tok in re.split(r"[;,]", re.sub(r"\s+", "", config_text or "")):
+        if not tok:
+            continue
+        if tok in ("n", "s", "N", "S"):
+            names.add("default_ns")
+        elif tok in ("e", "w", "E", "W"):
+            names.add("default_ew")
+        elif tok in opgen.LAYOUTS:
+            names.add("layout")
+        else:
+            names.add(re.split(r"[.=:]", tok)[0])
+    return names
+
+
 def _ret_only(outcome):
     """The call's own outcome, without the harness's bookkeeping keys."""
     return {k: v for k, v in outcome.items() if k in ("ok", "raised")}
@@ -593,6 +650,24 @@ def check_plan(plan):
                 "detail": {"after_H": excerpt(h["final"], path),
                            "after_N": excerpt(n["final"], path),
                            "normal_form": nf}})
+        # "...compared with a freshly constructed object given the final
+        # settings": the same normal form with every config assignment that
+        # preceded the last committed parse folded into the constructor's
+        # config string (assignments accumulate; within one string the
+        # later mention wins).
+        nf2 = fold_config(nf, idx, ops, raised)
+        if nf2 is not None:
+            n2 = fork_call(run_history, (nf2, False))
+            execs += 1
+            bump("folded_reference_checked")
+            path2, oo2 = compare(h["final"], n2["final"], exact=False)
+            if path2 is not None:
+                failures.append({
+                    "oracle": "normal_form_folded",
+                    "path": path2, "path_class": path_class(path2),
+                    "detail": {"after_H": excerpt(h["final"], path2),
+                               "after_fresh": excerpt(n2["final"], path2),
+                               "fresh_history": nf2}})
         # Return value of the last committed description-level parse (the
         # only kept call whose return value C14 speaks about: it is what
         # .tracts now holds).  Return values of other kept calls (e.g. a
